@@ -106,7 +106,16 @@ std::vector<StaticObj> g_statics;
 std::vector<GuardVar> g_guards;      // sorted by mangled name => ASLR independent ids
 std::vector<std::pair<uintptr_t, int> > g_guard_by_addr;
 struct FirstUse { int guard; int tid; int blocked; };
-std::vector<FirstUse> g_first_use;
+// fixed storage: code that runs on simulated threads must not call libc functions that the
+// race detector intercepts (malloc / memmove), or the simulator itself would show up in reports
+struct FirstUseLog {
+  enum { CAP = 8192 };
+  FirstUse v[CAP]; size_t n;
+  void push_back(const FirstUse& f) { if (n < CAP) v[n++] = f; }
+  size_t size() const { return n; }
+  const FirstUse& operator[](size_t i) const { return v[i]; }
+};
+FirstUseLog g_first_use;
 long g_guard_contentions = 0;
 int g_guard_nest[MAXT + 1];
 int g_guard_max_nest = 0;
@@ -367,6 +376,9 @@ void vs_dump_schedule(FILE* f) {
   for (size_t i = 0; i < g_events.size(); ++i) fprintf(f, "%s%d", i ? " " : "", g_events[i].tid);
 }
 
+long vs_schedule_len(void) { return (long)g_events.size(); }
+int vs_schedule_at(long i) { return g_events[(size_t)i].tid; }
+
 long vs_fault_count(int reason) { return (reason >= 0 && reason < 16) ? g_reason_count[reason] : 0; }
 long vs_preempts_fired(void) { return g_preempts_fired; }
 long vs_stalls_fired(void) { return g_stalls_fired; }
@@ -565,6 +577,13 @@ int vs_statics_check(void) {
   return -1;
 }
 
+static int g_mut_static = -1; static long g_mut_step = -1;
+void vs_statics_check_note(long step) {
+  int m = vs_statics_check();
+  if (m >= 0 && g_mut_static < 0) { g_mut_static = m; g_mut_step = step; }
+}
+int vs_first_mutation(long* step) { if (step) *step = g_mut_step; return g_mut_static; }
+
 int vs_guard_violation(char* buf, int buflen) {
   for (size_t i = 0; i < g_guards.size(); ++i) {
     const GuardVar& g = g_guards[i];
@@ -593,6 +612,12 @@ uint64_t vs_statics_final_hash(void) {
     f.u64(vsim::fnv_bytes((const void*)o.addr, o.size));
   }
   return f.h;
+}
+
+uint64_t vs_static_hash_at(int i) {
+  if (i < 0 || (size_t)i >= g_statics.size() || !g_statics[i].initialised) return 0;
+  uint64_t h = vsim::fnv_bytes((const void*)g_statics[i].addr, g_statics[i].size);
+  return h ? h : 1;
 }
 
 void vs_dump_statics(FILE* f) {
